@@ -110,10 +110,8 @@ ares_status_t
 
   ares_channel_lock(channel);
 
-  memset(&channel->sock_funcs, 0, sizeof(channel->sock_funcs));
-
-  /* Copy individually for ABI compliance.  memcpy() with a sizeof would do
-   * invalid reads */
+  /* Validate before touching the functions in use, a rejected table must leave
+   * the channel as it was */
   if (funcs->version >= 1) {
     if (funcs->asocket == NULL || funcs->aclose == NULL ||
         funcs->asetsockopt == NULL || funcs->aconnect == NULL ||
@@ -121,6 +119,13 @@ ares_status_t
       status = ARES_EFORMERR;
       goto done;
     }
+  }
+
+  memset(&channel->sock_funcs, 0, sizeof(channel->sock_funcs));
+
+  /* Copy individually for ABI compliance.  memcpy() with a sizeof would do
+   * invalid reads */
+  if (funcs->version >= 1) {
     channel->sock_funcs.version      = funcs->version;
     channel->sock_funcs.flags        = funcs->flags;
     channel->sock_funcs.asocket      = funcs->asocket;
